@@ -174,7 +174,7 @@ def own_history(draw, maxlen):
     for _ in range(n):
         _lines, ptr = ownptr.model(ops)
         valid = [j for j in (1, 2, 3) if ptr[j] is not None]
-        kinds = [1, 2, 2, 3, 3, 5] + ([4] if valid else [])
+        kinds = [1, 2, 2, 3, 3, 5, 6, 7] + ([4] if valid else [])
         op = draw(st.sampled_from(kinds))
         j = draw(st.sampled_from(valid)) if op == 4 else draw(st.sampled_from([1, 1, 2, 3]))
         ops.append((op, j))
